@@ -246,51 +246,108 @@ def dim_tree(tree, defs):
     return ("nodim",)
 
 
-def float_ok(tree, defs):
-    """binary64 shadow of the exponent arithmetic: True when every zero test / equality test the
-    code performs on float exponents has the same outcome as in exact arithmetic"""
+def _simulate(tree, defs, exact):
+    """the arithmetic of units.py on one tree, either with the number types Python uses (int,
+    binary64 from `/` and from fractional powers) or exactly (Fraction); returns the list of
+    (unit dict, warning) of every node in evaluation order.  Only used to recognise cases in
+    which binary64 exponent arithmetic takes a different decision than exact arithmetic."""
+    trace = []
+
+    def unpack(u, count=1):
+        res = collections.OrderedDict()
+        for name, e in u.items():
+            if name in defs:
+                sub = unpack(collections.OrderedDict(
+                    (k, (v if exact else (int(v) if v.denominator == 1 else float(v))))
+                    for k, v in defs[name]), e * count)
+            else:
+                sub = {name: e * count}
+            for k, v in sub.items():
+                res[k] = res.get(k, 0) + v
+        return res
+
+    def try_pack(unit, pre):
+        ratio = 0
+        for name, e in unit.items():
+            pe = pre.get(name, 0)
+            if not pe:
+                return 0
+            r = (F(e) / pe) if exact else e / pe
+            if ratio and ratio != r:
+                return 0
+            if not ratio:
+                ratio = r
+        for name in pre:
+            if not unit.get(name, 0):
+                return 0
+        return ratio
+
     def go(t):
         tag = t[0]
         if tag == "leaf":
-            ex = expand(units_from_json(t[1]), defs)
-            return {k: (v, float(v)) for k, v in ex.items()}
+            u = collections.OrderedDict((k, F(n, d) if exact else n) for k, n, d in t[1])
+            trace.append((dict(u), False))
+            return u, False
         if tag == "const":
-            return {}
+            return collections.OrderedDict(), True
         if tag == "powc":
-            a = go(t[1])
+            a, _ = go(t[1])
             k = F(t[2], t[3])
-            kf = k.numerator if k.denominator == 1 else k.numerator / k.denominator
-            return {s: (e * k, f * kf) for s, (e, f) in a.items()}
+            p = k if exact else (k.numerator if k.denominator == 1 else k.numerator / k.denominator)
+            u = collections.OrderedDict((s, e * p) for s, e in a.items())
+            trace.append((dict(u), False))
+            return u, False
         op = t[1]
         rs = [go(x) for x in t[2]]
-        if op == "neg":
-            return rs[0]
-        if op == "sqrt":
-            return {s: (e / 2, f / 2) for s, (e, f) in rs[0].items()}
-        if op in ("add", "sub"):
-            a, b = rs
-            if a and b:
-                exact_eq = {s: e for s, (e, _) in a.items()} == {s: e for s, (e, _) in b.items()}
-                float_eq = {s: f for s, (_, f) in a.items()} == {s: f for s, (_, f) in b.items()}
-                if exact_eq != float_eq:
-                    raise ArithmeticError
-                if not exact_eq:
-                    return {}
-            return a or b
-        sg = 1 if op == "mul" else -1
-        d = dict(rs[0])
-        for s, (e, f) in rs[1].items():
-            e0, f0 = d.get(s, (F(0), 0))
-            d[s] = (e0 + sg * e, f0 + sg * f)
-        for s, (e, f) in d.items():
-            if (e == 0) != (f == 0):
-                raise ArithmeticError
-        return {s: v for s, v in d.items() if v[0] != 0}
+        warn = False
+        if all(u or c for u, c in rs):
+            un = [unpack(u) for u, _ in rs]
+            if op in ("neg",):
+                r = un[0]
+            elif op == "sqrt":
+                r = collections.OrderedDict((s, e / 2) for s, e in un[0].items())
+            elif op in ("add", "sub"):
+                nz = [{s: e for s, e in x.items() if e != 0} for x in un]
+                if un[0] and un[1] and nz[0] != nz[1]:
+                    warn, r = True, collections.OrderedDict()
+                else:
+                    r = un[0] or un[1]
+            else:
+                sg = 1 if op == "mul" else -1
+                r = collections.OrderedDict(un[0])
+                for s, e in un[1].items():
+                    r[s] = r.get(s, 0) + sg * e
+            r = collections.OrderedDict((s, e) for s, e in r.items() if e != 0)
+            for name, d in defs.items():
+                pre = {k: (v if exact else (int(v) if v.denominator == 1 else float(v))) for k, v in d}
+                k = try_pack(r, pre)
+                if k:
+                    r = collections.OrderedDict([(name, k)])
+                    break
+        else:
+            r = collections.OrderedDict()
+        trace.append((dict(r), warn))
+        return r, False
+    go(tree)
+    return trace
+
+
+def float_ok(tree, defs):
+    """True when binary64 exponent arithmetic takes the same decisions as exact arithmetic on
+    this tree (same keys and warnings at every node, values equal up to 1e-9)"""
     try:
-        r = go(tree)
-    except ArithmeticError:
+        a = _simulate(tree, defs, True)
+        b = _simulate(tree, defs, False)
+    except (ZeroDivisionError, RecursionError):
         return False
-    return all(abs(float(e) - f) < 1e-9 for e, f in r.values())
+    if len(a) != len(b):
+        return False
+    for (ua, wa), (ub, wb) in zip(a, b):
+        if wa != wb or set(ua) != set(ub):
+            return False
+        if any(abs(float(ua[k]) - float(ub[k])) > 1e-9 for k in ua):
+            return False
+    return True
 
 
 # ----------------------------------------------------------------------------- tree generator
@@ -312,7 +369,7 @@ def leaf(rng, u, defs=None):
         ex = expand([(name, F(1))], defs)
         k = F(rng.choice([-2, -1, 1, 1, 2, 3]))
         d = dict(u)
-        rest = {s: d.get(s, F(0)) - k * ex.get(s, F(0)) for s in set(d) | set(ex)}
+        rest = {s: d.get(s, F(0)) - k * ex.get(s, F(0)) for s in sorted(set(d) | set(ex))}
         rest = [(s, e) for s, e in rest.items() if e != 0]
         if all(e.denominator == 1 and abs(e) <= 9 for _, e in rest):
             u = [(name, k)] + sorted(rest)
@@ -365,7 +422,7 @@ def route(rng, d, depth, defs=None):
             if rng.random() < 0.5 or not d2:
                 d2[extra] = F(rng.choice([-2, -1, 1, 2]))
             sg = 1 if c == "mul" else -1
-            d1 = {s: d.get(s, F(0)) - sg * d2.get(s, F(0)) for s in set(d) | set(d2)}
+            d1 = {s: d.get(s, F(0)) - sg * d2.get(s, F(0)) for s in sorted(set(d) | set(d2))}
             d1 = {s: e for s, e in d1.items() if e != 0}
             if d1 and d2 and ok_exps(d1) and ok_exps(d2):
                 return ["node", c, [route(rng, d1, depth - 1, defs), route(rng, d2, depth - 1, defs)]]
